@@ -1,2 +1,269 @@
-/-! stub: replaced by the Signals group driver -/
-def main : IO Unit := pure ()
+import MesaModel.Model.Signals
+import MesaModel.Model.Computed
+/-!
+Line-protocol driver for the signals group (C16, C17, C18-signals).  One output line per input line.
+
+  scenario sig  name:kind:t1,t2,… …      C16 machine; kind ∈ obs|lst; the types in the set's iteration order
+      observe N T h | unobserve N T h | clear N | drop h         (N: name or *, T: type or *)
+      set n v | lassign n vs | lset n i v | lsetslice n a b vs | ldel n i | ldelslice n a b
+      linsert n i v | lappend n v | lpop n i | lremove n v | lextend n vs | liadd n vs | lreverse n | lclear n
+      subs | get n                               (vs: comma separated ints, `-` = empty)
+  scenario comp owner.name.kind,… h:c.c,…       C17 machine; kind ∈ obs|comp; handler programs (`-` = none)
+      define c o n TREE | assign o n v | read c | observe o n h | unobserve o n h | drop h
+      TREE: ( ret v ) | ( read o n T… ) | ( readc c T… ) | ( write o n v T )   branch i for value i, last = otherwise
+-/
+open Mesa.Signals
+
+def words (s : String) : List String := (s.splitOn " ").filter (· ≠ "")
+
+def parseType : String → Option SigType
+  | "change" => some .change | "append" => some .append | "insert" => some .insert
+  | "remove" => some .remove | "replace" => some .replace | _ => none
+
+def fmtType : SigType → String
+  | .change => "change" | .append => "append" | .insert => "insert" | .remove => "remove" | .replace => "replace"
+
+def parseInts (s : String) : Option (List Int) :=
+  if s = "-" then some [] else (s.splitOn ",").mapM (·.toInt?)
+
+def parseDecl (s : String) : Option Decl :=
+  match s.splitOn ":" with
+  | [n, k, ts] => do
+    let n ← n.toNat?
+    let k ← (if k = "obs" then some Kind.obs else if k = "lst" then some Kind.lst else none)
+    let ts ← (ts.splitOn ",").mapM parseType
+    -- the listed order must be an ordering of the kind's set
+    if ts.length = k.types.length ∧ k.types.all (ts.contains ·) then pure ⟨n, k, ts⟩ else none
+  | _ => none
+
+def parseSelN (s : String) : Option (Sel Nat) := if s = "*" then some .all else s.toNat?.map .one
+def parseSelT (s : String) : Option (Sel SigType) := if s = "*" then some .all else (parseType s).map .one
+
+def fmtInts (l : List Int) : String := "[" ++ ",".intercalate (l.map toString) ++ "]"
+
+def fmtVal : Val → String
+  | .none => "N" | .int i => toString i | .list l => fmtInts l
+
+def fmtIdx : Idx → String
+  | .none => "N" | .int i => toString i | .slice a b => s!"{a}..{b}"
+
+def fmtDeliv (d : Nat × Sig) : String :=
+  s!"{d.1}:{d.2.name}:{fmtType d.2.type}:{fmtVal d.2.old}:{fmtVal d.2.new}:{fmtIdx d.2.index}"
+
+def fmtErr : Err → String
+  | .value => "err Value" | .key => "err Key" | .index => "err Index" | .attr => "err Attr" | .fuel => "err Fuel"
+  | .noneVal => "ok None"
+
+def fmtOut : Out → String
+  | .err e => fmtErr e
+  | .ok ds => " ".intercalate ("ok" :: ds.map fmtDeliv)
+
+def canonTypes : List SigType := [.change, .append, .insert, .remove, .replace]
+
+def kindOf (s : St) (n : Nat) : Option Kind := (s.reg.decls.find? (·.name == n)).map (·.kind)
+
+def parseSigOp (s : St) : List String → Option Op
+  | ["observe", n, t, h] => do pure (.observe (← parseSelN n) (← parseSelT t) (← h.toNat?))
+  | ["unobserve", n, t, h] => do pure (.unobserve (← parseSelN n) (← parseSelT t) (← h.toNat?))
+  | ["clear", n] => do pure (.clear (← parseSelN n))
+  | ["drop", h] => do pure (.drop (← h.toNat?))
+  | ["set", n, v] => do
+      let n ← n.toNat?
+      if kindOf s n = some .obs then pure (.assign n (← v.toInt?)) else none
+  | op :: n :: rest => do
+      let n ← n.toNat?
+      if kindOf s n ≠ some .lst then none
+      match op, rest with
+      | "lassign", [vs] => pure (.lassign n (← parseInts vs))
+      | "lset", [i, v] => pure (.lset n (← i.toInt?) (← v.toInt?))
+      | "lsetslice", [a, b, vs] => pure (.lsetSlice n (← a.toInt?) (← b.toInt?) (← parseInts vs))
+      | "ldel", [i] => pure (.ldel n (← i.toInt?))
+      | "ldelslice", [a, b] => pure (.ldelSlice n (← a.toInt?) (← b.toInt?))
+      | "linsert", [i, v] => pure (.linsert n (← i.toInt?) (← v.toInt?))
+      | "lappend", [v] => pure (.lappend n (← v.toInt?))
+      | "lpop", [i] => pure (.lpop n (← i.toInt?))
+      | "lremove", [v] => pure (.lremove n (← v.toInt?))
+      | "lextend", [vs] => pure (.lextend n (← parseInts vs))
+      | "liadd", [vs] => pure (.liadd n (← parseInts vs))
+      | "lreverse", [] => pure (.lreverse n)
+      | "lclear", [] => pure (.lclear n)
+      | _, _ => none
+  | _ => none
+
+def fmtSubs (s : St) : String :=
+  let parts := s.reg.decls.map fun d =>
+    let per := (canonTypes.filter (d.types.contains ·)).map fun t =>
+      fmtType t ++ "=" ++ ",".intercalate ((s.reg.subs d.name t).map fun h => if s.alive h then toString h else "x")
+    s!"{d.name}:" ++ ";".intercalate per
+  " ".intercalate ("ok" :: parts)
+
+/-! ### C17 -/
+open Mesa.Computed in
+section
+open Mesa.Computed
+
+inductive Syn where
+  | ret (v : Int)
+  | read (k : Key) (bs : List Syn)
+  | readC (c : Nat) (bs : List Syn)
+  | write (k : Key) (v : Int) (t : Syn)
+deriving Inhabited
+
+instance : Inhabited Tree := ⟨.ret 0⟩
+
+/-- recursive descent; returns the tree and the remaining tokens -/
+partial def parseSyn : List String → Option (Syn × List String)
+  | "(" :: "ret" :: v :: ")" :: rest => do pure (.ret (← v.toInt?), rest)
+  | "(" :: "read" :: o :: n :: rest => do
+      let (bs, rest) ← parseMany rest
+      if bs.isEmpty then none else pure (.read (← o.toNat?, ← n.toNat?) bs, rest)
+  | "(" :: "readc" :: c :: rest => do
+      let (bs, rest) ← parseMany rest
+      if bs.isEmpty then none else pure (.readC (← c.toNat?) bs, rest)
+  | "(" :: "write" :: o :: n :: v :: rest => do
+      let (t, rest) ← parseSyn rest
+      match rest with
+      | ")" :: rest => pure (.write (← o.toNat?, ← n.toNat?) (← v.toInt?) t, rest)
+      | _ => none
+  | _ => none
+where
+  parseMany : List String → Option (List Syn × List String)
+    | ")" :: rest => some ([], rest)
+    | toks => do
+      let (t, rest) ← parseSyn toks
+      let (ts, rest) ← parseMany rest
+      pure (t :: ts, rest)
+
+def pick (bs : List Syn) (v : Int) : Syn :=
+  if 0 ≤ v ∧ v.toNat < bs.length then bs.getD v.toNat default else bs.getLastD default
+
+partial def toTree : Syn → Tree
+  | .ret v => .ret v
+  | .read k bs => .read k fun v => toTree (pick bs v)
+  | .readC c bs => .readC c fun v => toTree (pick bs v)
+  | .write k v t => .write k v (toTree t)
+
+def parseCDecl (s : String) : Option (Nat × Decl) :=
+  match s.splitOn "." with
+  | [o, n, k] => do
+    let k ← (if k = "obs" then some Kind.obs else if k = "comp" then some Kind.comp else none)
+    pure (← o.toNat?, ⟨← n.toNat?, k, k.types⟩)
+  | _ => none
+
+def parseProg (s : String) : Option (Nat × List Nat) :=
+  match s.splitOn ":" with
+  | [h, cs] => do
+    let cs ← (if cs = "" then some [] else (cs.splitOn ".").mapM (·.toNat?))
+    pure (← h.toNat?, cs)
+  | _ => none
+
+structure CSt where
+  st : Mesa.Computed.St
+  defined : List Nat
+  decls : List (Nat × Decl)
+
+def cfuel : Nat := 20000
+
+def fmtO : Option Int → String
+  | none => "N" | some v => toString v
+
+def fmtEntry (e : Entry) : String := s!"{e.h}:{e.owner}.{e.name}:{fmtO e.old}>{fmtO e.new}"
+
+def fmtC (cs : CSt) (old : Mesa.Computed.St) (s : Mesa.Computed.St) (r : R) : String :=
+  let head := match r with | .ok v => s!"ok {v}" | .err e => fmtErr e
+  let log := " ".intercalate ((s.log.drop old.log.length).map fmtEntry)
+  let evs := " ".intercalate (cs.defined.reverse.map fun c => s!"{c}:{((s.comps c).map (·.evals)).getD 0}")
+  s!"{head} | {log} | {evs}"
+
+def declKind (cs : CSt) (o n : Nat) : Option Kind :=
+  (cs.decls.find? fun d => d.1 == o && d.2.name == n).map (·.2.kind)
+
+def stepC (cs : CSt) (ws : List String) : CSt × String :=
+  let s := cs.st
+  let fin (cs' : CSt) (r : Option (Mesa.Computed.St × R)) : CSt × String :=
+    match r with
+    | none => (cs, "err Fuel")
+    | some (s', r) => let cs'' := { cs' with st := s' }; (cs'', fmtC cs'' s s' r)
+  match ws with
+  | "define" :: c :: o :: n :: toks =>
+    match c.toNat?, o.toNat?, n.toNat?, parseSyn toks with
+    | some c, some o, some n, some (syn, []) =>
+      if cs.defined.contains c ∨ declKind cs o n ≠ some .comp then (cs, "bad-op")
+      else fin { cs with defined := c :: cs.defined } (step cfuel s (.define c o n (toTree syn)))
+    | _, _, _, _ => (cs, "bad-op")
+  | ["assign", o, n, v] =>
+    match o.toNat?, n.toNat?, v.toInt? with
+    | some o, some n, some v =>
+      if declKind cs o n ≠ some .obs then (cs, "bad-op") else fin cs (step cfuel s (.assign (o, n) v))
+    | _, _, _ => (cs, "bad-op")
+  | ["read", c] =>
+    match c.toNat? with
+    | some c => if cs.defined.contains c then fin cs (step cfuel s (.read c)) else (cs, "bad-op")
+    | none => (cs, "bad-op")
+  | ["observe", o, n, h] =>
+    match o.toNat?, n.toNat?, h.toNat? with
+    | some o, some n, some h => fin cs (step cfuel s (.observe (o, n) h))
+    | _, _, _ => (cs, "bad-op")
+  | ["unobserve", o, n, h] =>
+    match o.toNat?, n.toNat?, h.toNat? with
+    | some o, some n, some h => fin cs (step cfuel s (.unobserve (o, n) h))
+    | _, _, _ => (cs, "bad-op")
+  | ["drop", h] =>
+    match h.toNat? with
+    | some h => fin cs (step cfuel s (.drop h))
+    | none => (cs, "bad-op")
+  | _ => (cs, "bad-op")
+
+end
+
+inductive Mach where
+  | none
+  | sig (s : St)
+  | comp (c : CSt)
+
+def stepLine (m : Mach) (ws : List String) : Mach × String :=
+  match ws with
+  | "scenario" :: "sig" :: ds =>
+    -- `|` (class boundary) and `natural` (real sets on the Python side) only concern the implementation runner
+    match (ds.filter fun t => t ≠ "|" ∧ t ≠ "natural").mapM parseDecl with
+    | some decls =>
+      if (decls.map (·.name)).eraseDups.length = decls.length then (.sig (init decls), "ok") else (m, "bad-op")
+    | none => (m, "bad-op")
+  | ["scenario", "comp", ds, ps] =>
+    match (ds.splitOn ",").mapM parseCDecl, (if ps = "-" then some [] else (ps.splitOn ",").mapM parseProg) with
+    | some decls, some progs =>
+      let declsOf := fun o => (decls.filter (·.1 == o)).map (·.2)
+      let progOf := fun h => (progs.lookup h).getD []
+      (.comp { st := Mesa.Computed.init declsOf progOf, defined := [], decls := decls }, "ok")
+    | _, _ => (m, "bad-op")
+  | _ =>
+    match m with
+    | .none => (m, "bad-op")
+    | .comp c => let (c', o) := stepC c ws; (.comp c', o)
+    | .sig s =>
+      match ws with
+      | ["subs"] => (m, fmtSubs s)
+      | ["get", n] =>
+        match n.toNat? with
+        | some n =>
+          match kindOf s n with
+          | some .obs => (m, "ok " ++ fmtVal (s.obsv n))
+          | some .lst => (m, match s.lists n with | some d => "ok " ++ fmtInts d | none => "err Attr")
+          | _ => (m, "bad-op")
+        | none => (m, "bad-op")
+      | _ =>
+        match parseSigOp s ws with
+        | none => (m, "bad-op")
+        | some op => let (s', o) := step s op; (.sig s', fmtOut o)
+
+partial def loop (h : IO.FS.Stream) (out : IO.FS.Stream) (m : Mach) : IO Unit := do
+  let line ← h.getLine
+  if line.isEmpty then return ()
+  let (m', o) := stepLine m (words line.trimAscii.toString)
+  out.putStrLn o
+  loop h out m'
+
+def main : IO Unit := do
+  let out ← IO.getStdout
+  loop (← IO.getStdin) out .none
+  out.flush
